@@ -12,4 +12,4 @@ theorem c_spawn (s : State) (op : Op) (hA : InvA s) (hB : InvB s) (hC : InvC s) 
       omega
     simp only [upd, e, if_false]
     have b := hC.thr t ht'
-    exact ⟨b.stale_closed, b.held_fresh, b.ret_val, b.ret_objs⟩
+    exact ⟨b.stale_closed, b.held_fresh, b.ret_val, b.ret_objs, b.started_first⟩
